@@ -1,7 +1,7 @@
 (* The usage counters of the catalog model: what commit adds to each counter from the transaction's
    change set is exactly the change of the recomputed count, so the stored counters equal the counts
-   recomputed from the node and service rows — as long as no instance is named "consul" (for the
-   billable count; Refuted.v has the counterexample). *)
+   recomputed from the node and service rows.  (Until /repo 10e7cca the billable count went wrong
+   when an instance was renamed to or from "consul".) *)
 From stdpp Require Import gmap strings.
 From RecordUpdate Require Import RecordSet.
 From Coq Require Import NArith ZArith Lia.
@@ -144,14 +144,14 @@ Qed.
 
 Definition billable (v : svc) : bool := bool_decide (sv_kind v = KTypical) && negb (bool_decide (sv_name v = consul_name)).
 
-Lemma contrib_billable b a :
-  (forall x, b = Some x -> sv_name x ≠ consul_name) -> (forall y, a = Some y -> sv_name y ≠ consul_name) ->
-  svc_contrib billable_usage b a = indo billable a - indo billable b.
+Lemma contrib_billable b a : svc_contrib billable_usage b a = indo billable a - indo billable b.
 Proof.
-  intros Hb Ha. destruct b as [x|], a as [y|]; unfold svc_contrib, typical, is_consul, billable; cbn [indo];
-    try (rewrite (bool_decide_eq_false_2 (sv_name x = consul_name)) by (apply Hb; reflexivity));
-    try (rewrite (bool_decide_eq_false_2 (sv_name y = consul_name)) by (apply Ha; reflexivity));
-    try destruct (sv_kind x); try destruct (sv_kind y); closed_tests; cbn; lia.
+  destruct b as [x|], a as [y|]; unfold svc_contrib, typical, is_consul, billable; cbn [indo];
+    try destruct (sv_kind x); try destruct (sv_kind y);
+    repeat match goal with
+           | |- context [@bool_decide (sv_name ?v = consul_name) ?d] => destruct (@bool_decide (sv_name v = consul_name) d)
+           end;
+    vm_compute; reflexivity.
 Qed.
 
 Lemma contrib_other_zero id b a :
@@ -325,8 +325,6 @@ Proof.
 Qed.
 
 (* ---------- the theorem ---------- *)
-Definition no_consul (m : gmap (string * string) svc) : Prop := forall k v, m !! k = Some v -> sv_name v ≠ consul_name.
-
 Definition UsageOK (s : st) : Prop := forall id, id ∈ svc_usage_ids -> stored_usage s id = recompute_usage s id.
 
 Lemma count_Z {K A} `{Countable K} (P : A -> bool) (m : gmap K A) :
@@ -339,10 +337,10 @@ Lemma svc_sum (before after : gmap (string * string) svc) (id : string) (P : svc
 Proof. intros Hf. rewrite !count_Z. apply sum_changes_count. exact Hf. Qed.
 
 Lemma usage_delta_spec (before after : st) (id : string) :
-  id ∈ svc_usage_ids -> no_consul (services before) -> no_consul (services after) ->
+  id ∈ svc_usage_ids ->
   usage_delta before after id = Z.of_N (recompute_usage after id) - Z.of_N (recompute_usage before id).
 Proof.
-  intros Hid Hcb Hca. pose proof Hid as Hcases. apply svc_usage_ids_cases in Hcases.
+  intros Hid. pose proof Hid as Hcases. apply svc_usage_ids_cases in Hcases.
   unfold usage_delta.
   rewrite (sum_changes_zero (conf_contrib id)) by (intros; apply conf_contrib_zero; exact Hid).
   destruct Hcases as [->|[->|[->|[->|[->|[->|[->|[->| ->]]]]]]]].
@@ -374,29 +372,23 @@ Proof.
     rewrite (svc_sum _ _ _ sv_native) by (intros; apply contrib_native).
     unfold recompute_usage. closed_tests. cbv beta iota. lia.
   - rewrite (sum_changes_zero (node_contrib _)) by (intros; apply node_contrib_zero; [exact Hid|discriminate]).
-    rewrite (svc_sum _ _ _ billable).
-    2:{ intros k. apply contrib_billable; [intros x Hx; apply (Hcb k x Hx)|intros y Hy; apply (Hca k y Hy)]. }
+    rewrite (svc_sum _ _ _ billable) by (intros; apply contrib_billable).
     unfold recompute_usage. closed_tests. cbv beta iota. unfold billable. lia.
 Qed.
 
-Theorem commit_usage_ok before after :
-  UsageOK before -> no_consul (services before) -> no_consul (services after) -> UsageOK (commit_usage before after).
+(* one commit: if the counters were right before, they are right after *)
+Theorem commit_usage_ok before after : UsageOK before -> UsageOK (commit_usage before after).
 Proof.
-  intros Hok Hcb Hca id Hid.
+  intros Hok id Hid.
   assert (Hin : id ∈ usage_ids) by (unfold svc_usage_ids in Hid; apply elem_of_take in Hid as (i & Hi & _); eapply elem_of_list_lookup_2; exact Hi).
   unfold stored_usage, commit_usage.
   match goal with |- context [after <| usage := ?x |>] =>
     change (usage (after <| usage := x |>)) with x;
     change (recompute_usage (after <| usage := x |>) id) with (recompute_usage after id) end.
   rewrite (lookup_list_to_map_fn usage_ids _ id Hin). cbn [default].
-  rewrite (usage_delta_spec before after id Hid Hcb Hca).
+  rewrite (usage_delta_spec before after id Hid).
   fold (stored_usage before id). rewrite (Hok id Hid). unfold Datatypes.id. lia.
 Qed.
-
-(* ---------- reachable states in which no instance is named "consul" ---------- *)
-Inductive CReachNC : st -> Prop :=
-| CReachNC_init : CReachNC st0
-| CReachNC_step idx c s : CReachNC s -> no_consul (services (apply idx c s).1) -> CReachNC (apply idx c s).1.
 
 Lemma UsageOK_st0 : UsageOK st0.
 Proof.
@@ -404,31 +396,5 @@ Proof.
   destruct Hid as [->|[->|[->|[->|[->|[->|[->|[->| ->]]]]]]]]; vm_compute; reflexivity.
 Qed.
 
-Theorem usage_recomputed s : CReachNC s -> UsageOK s /\ no_consul (services s).
-Proof.
-  induction 1 as [|idx c s _ [IHu IHc] Hnc].
-  - split; [apply UsageOK_st0|]. intros k v Hk. cbn in Hk. rewrite lookup_empty in Hk. discriminate.
-  - split; [|exact Hnc]. unfold apply in *. destruct (exec idx c s) as [s' r]. cbn [fst] in *.
-    apply commit_usage_ok; [exact IHu|exact IHc|exact Hnc].
-Qed.
-
-(* a decidable way to exhibit such states *)
-Definition no_consul_b (m : gmap (string * string) svc) : bool :=
-  bool_decide (map_Forall (fun _ v => sv_name v ≠ consul_name) m).
-Lemma no_consul_b_spec m : no_consul_b m = true -> no_consul m.
-Proof. unfold no_consul_b. intros H. apply bool_decide_eq_true in H. exact H. Qed.
-
-Fixpoint run_nc (log : list (N * cmd)) (s : st) : bool :=
-  match log with
-  | [] => true
-  | (idx, c) :: rest => let s' := (apply idx c s).1 in no_consul_b (services s') && run_nc rest s'
-  end.
-
-Lemma run_nc_reach log : forall s, CReachNC s -> run_nc log s = true -> CReachNC (run log s).1.
-Proof.
-  induction log as [|[idx c] log IH]; intros s Hs; cbn [run_nc run]; [intros _; exact Hs|].
-  intros Hb. apply andb_true_iff in Hb as [Hb1 Hb2].
-  pose proof (CReachNC_step idx c s Hs (no_consul_b_spec _ Hb1)) as Hs'.
-  specialize (IH _ Hs' Hb2). destruct (apply idx c s) as [s' r]. cbn [fst] in *.
-  destruct (run log s') as [s'' rs]. exact IH.
-Qed.
+Theorem apply_UsageOK idx c s : UsageOK s -> UsageOK (apply idx c s).1.
+Proof. intros H. unfold apply. destruct (exec idx c s) as [s' r]. cbn [fst]. apply commit_usage_ok. exact H. Qed.
